@@ -20,13 +20,13 @@ CHECKS = {
     text="Stateless model checking of the real AsyncLogger (minimum buffer 100) under the cooperative scheduler: all schedules (<=2 preemptions, thorough 3) of 2-3 producers x 1-2 operations (events, events below the logger's level, raw writes) racing the worker at occupancies 0/98/99/100 for the three overflow policies, with a free, token-gated or parked (slow appender) worker; after Stop: no item twice, no unknown item, delivered + GetDiscardCounter() == submitted, Block => counter 0 and everything delivered.",
     note=SCHED_NOTE, technique="stateless model checking (controlled scheduler, preemption-bounded DFS over the instrumented implementation)", design="DESIGN.md section 3 C04"),
  "C05": dict(
-    text="Stateless model checking: (a) AsyncLogger.Stop against the draining worker at occupancies 0,1,2,50,98,99,100 (thorough: every 0..100) x 3 policies x worker idle / mid-append / parked behind a gate a helper opens: no deadlock, everything accepted is at the appender when Stop returns; (c) RollingFileAppender under rotation on the in-memory filesystem: no descriptor left after Stop (called twice), at most 2 descriptors whenever no write is in progress.",
+    text="Stateless model checking: (a) AsyncLogger.Stop against the draining worker at occupancies 0,1,2,50,98,99,100 (thorough: every 0..100) x 3 policies x worker idle / mid-append / parked behind a gate a helper opens: no deadlock, everything accepted is at the appender when Stop returns; (b) every logger kind reachable through Refresh (sync, async, Console, File, Discard, RollingFile x separate x async x policies) on the in-memory filesystem: events + raw write, Destroy (twice): everything accepted is readable from the target, no descriptor left; (c) RollingFileAppender under rotation: no descriptor left after Stop (called twice), at most 2 descriptors whenever no write is in progress (one known finding: interleaved rotations).",
     note=SCHED_NOTE, technique="stateless model checking (controlled scheduler, preemption/tick-bounded DFS over the instrumented implementation)", design="DESIGN.md section 3 C05"),
  "C06": dict(
     text="Stateless model checking of the real AsyncLogger: the C04 schedules with the per-producer-order oracle (delivered items of one goroutine are a subsequence in submission order, events and raw writes alike) and, with the appender parked for the whole production phase, Discard/DiscardOldest log calls still return (a waiting call is a deadlock outcome).",
     note=SCHED_NOTE, technique="stateless model checking (controlled scheduler, preemption-bounded DFS over the instrumented implementation)", design="DESIGN.md section 3 C06"),
  "C12": dict(
-    text="Stateless model checking of raw Write through the AsyncLogger with callers that overwrite their buffer after every call: 1-2 writers x 2-3 writes, 1-2 appenders, appender-reference level settings '', ERROR, INFO~WARN, 3 policies, a slow appender; every appender sees each payload exactly once, unaltered, in per-writer order.",
+    text="Stateless model checking of raw Write through the AsyncLogger with callers that overwrite their buffer after every call: 1-2 writers x 2-3 writes, 1-2 appenders, appender-reference level settings '', ERROR, INFO~WARN, 3 policies, a slow appender; every appender sees each payload exactly once, unaltered, in per-writer order. Sequential part (enumeration): all sequences of <=3 writes over 5 payloads (empty, binary, multi-line, 12 KB) with buffer reuse x sync/async x layout x 1-2 references x level settings, handle identity, Refresh fails for an unconfigured requested name; raw writes through every logger kind (logger-kinds family).",
     note=SCHED_NOTE, technique="stateless model checking (controlled scheduler, preemption-bounded DFS over the instrumented implementation)", design="DESIGN.md section 3 C12"),
  "C13": dict(
     text="Stateless model checking of the real RollingFileAppender on an in-memory filesystem and virtual clock: all schedules (<=2 preemptions) x all placements of <=2-3 interval boundaries (the clock may cross a boundary at any time.Now call) of 1-2 writers x 2-3 writes, a pre-existing file, a Stop/Start cycle; every id exactly once over all files, file names name.<14 digits>, append-only opens, no write older than its file's name, single writer: a write after a boundary lands in a file of the new interval. Two known findings (writer or rotation suspended across two rotations) are matched by history predicates.",
@@ -34,6 +34,53 @@ CHECKS = {
  "C19": dict(
     text="Fault enumeration on top of the C13 model checking: every filesystem call (open, write, sync, close, readdir, remove) may fail (ENOENT / EIO / short write) within a fault budget of 2 (thorough 3), combined with boundary placements and schedules: no panic, no blocked call; when only creations fail nothing is lost and a later interval attempts creation again.",
     note=SCHED_NOTE, technique="stateless model checking with exhaustive fault injection (deviation-bounded DFS)", design="DESIGN.md section 3 C19"),
+ "C14": dict(
+    text="Stateless model checking over a family of directory populations: every set of <=3 (thorough 4) entries from a 13-name alphabet (own rotated files, name.wf.<ts>, name.audit.<ts>, name.bak, name.1.gz, 13/15-digit and non-digit suffixes, bare name, foreign file, look-alike directory) x 4 ages around the cut-off x max ages 1/24/168/720 h, for the appender and its .wf sibling; the cleanup is triggered by a real rotation on the in-memory filesystem and its goroutine is interleaved with a further write (P<=1). Oracle: exact survivor set.",
+    note=SCHED_NOTE, technique="explicit enumeration of directory states + stateless model checking of the cleanup goroutine (controlled scheduler)", design="DESIGN.md section 3 C14"),
+ "C20": dict(
+    text="Crash-point enumeration: every scheduling point of every schedule (P<=1, thorough 2) of 1-2 threads x 2-3 log calls through a synchronous logger onto File / RollingFile / console stream (backed by an in-memory file) x both layouts is tried as the point where the process dies (no deferred code, no Stop); every acknowledged line must be in the target, whole, and the target holds only whole lines.",
+    note=SCHED_NOTE + " Process death only (what completed write calls left in the file), not power loss.", technique="stateless model checking with exhaustive crash-point injection", design="DESIGN.md section 3 C20"),
+ "C01": dict(
+    text="Bounded-exhaustive enumeration through the public Refresh/Record API against a level-range reference model: the range language (all 'A', 'A~B' over 11 names in three cases + unknown names, Enable on 17 codes); every sequence of 1-3 (thorough 4) appender references over 31 level shapes x 6 logger ranges x 11 event levels with exact delivery counts; 15 entry points x ranges cutting below/at/above their level; async/layout kinds; plus the logger-kinds family (Console, File, RollingFile with/without separate .wf and async) on the in-memory filesystem under the scheduler.",
+    note="Trusted: the reference model in harness/enum/c01.go; explicit '~MAX' upper bounds, one appender referenced twice and ranges with inner blanks are excluded as ambiguous. " + SCHED_NOTE,
+    technique="explicit-state enumeration of configurations x events against a reference model (real code driven through the public API)", design="DESIGN.md section 3 C01", engine="enum+zzvrt"),
+ "C02": dict(
+    text="Bounded-exhaustive enumeration of routing configurations: 10 registered tags sharing prefixes x every assignment of tag lists (<=2 patterns from 16 literals/wildcards/malformed wildcards, with blanks and duplicate separators) to 2 loggers, single patterns to 3 (thorough: <=2 on 3 loggers, single on 4) x root none/plain/with-tags; Refresh error-ness and the serving logger of every tag compared with a longest-prefix router model (exactly one recorder receives each event).",
+    note="Trusted: the router model in harness/enum/c02.go. Map iteration order inside Refresh is Go's randomised order (sampled, not enumerated, in this check); the empty-prefix wildcard '_*' is excluded.",
+    technique="explicit-state enumeration of configurations against a reference router model", design="DESIGN.md section 3 C02", engine="enum"),
+ "C07": dict(
+    text="Bounded-exhaustive enumeration: every field list of <=2 (thorough 3) fields over 130+ constructor cases (every public constructor, every Any dispatch arm, boundary numbers, NaN/Inf, hostile keys/strings, Reflect, custom Array, Object to depth 4, FieldsFromMap) x context string/fields through the real JSON layout; the line is tokenised order- and duplicate-preserving with encoding/json and compared with a reference value tree (integers exact, floats bit-exact, strings with U+FFFD replacement). Plus every grammatical encoder call sequence of <=9 (thorough 11) calls against a reference writer.",
+    note="Trusted: encoding/json's tokenizer, the reference value tree in harness/enum/enc.go. Values outside the alphabet are not covered.",
+    technique="explicit-state enumeration (encoder call sequences) + small-scope input enumeration against a reference writer", design="DESIGN.md section 3 C07", engine="enum"),
+ "C08": dict(
+    text="The same field lists through the real text layout: the line must equal the fixed header plus key=value pairs derived from the JSON layout's own tokens for the same event (string-like values unquoted, everything else byte-identical), contain no raw control byte; every grammatical encoder call sequence at the top level of the text encoder (twice, so a missing reset shows); 8 levels x 6 instants x 4 zones; file:line lengths 2..62 x widths -5..12,47,48,49,200 with the '...'+last max(W-3,0) rule and no panic.",
+    note="Trusted: the JSON tokens of C07 as reference. A trailing '||' after the context string when there are no fields is tolerated.",
+    technique="explicit-state enumeration + differential check against the JSON layout", design="DESIGN.md section 3 C08", engine="enum"),
+ "C09": dict(
+    text="Exhaustive: WriteLogString on every byte string of length <=3 (thorough <=4: 4.3e9) over all 256 byte values and of length <=6 (7) over 14 UTF-8 boundary bytes, decoded by a strict hand-written JSON string decoder (cross-checked against encoding/json) and compared with the input under U+FFFD replacement; memorylessness (esc(a+b)=esc(a)+esc(b) at rune boundaries); AppendKey/AppendString of both encoders on all strings of length <=2.",
+    note="Trusted: the 60-line reference decoder in harness/enum/c09.go (itself checked against encoding/json). Longer strings are covered by the memorylessness argument, not enumerated.",
+    technique="exhaustive input enumeration against a reference decoder", design="DESIGN.md section 3 C09", engine="enum"),
+ "C10": dict(
+    text="Complete finite product: 15 entry points x serving logger (built-in before Refresh, sync, async, sync whose reference filters the event) x range below/at/above x 8 hook subsets x 3 contexts (3600 cases): hook and lazy-generator call counts, the context they receive, the hook's time / string / fields in the recorded event and their order in the formatted line.",
+    note="Trusted: counting hooks; async loggers are observed after Destroy.", technique="exhaustive enumeration of a finite product of configurations", design="DESIGN.md section 3 C10", engine="enum"),
+ "C11": dict(
+    text="Complete finite product over generated call sites: 16 entry-point forms (Record with skip 1 and 2) x 7 call shapes (plain, closure, deferred closure, goroutine, method value, generic helper, inlinable helper) x {default, fast} x {first, repeated call = cache hit} x enableCaller on/off set through Refresh; oracle: runtime.Caller evaluated on the line directly above the call (inlining left on).",
+    note="Trusted: runtime.Caller; the generated file harness/enum/c11_sites.go.", technique="exhaustive enumeration of a finite product of programs x configurations", design="DESIGN.md section 3 C11", engine="enum"),
+ "C15": dict(
+    text="Bounded-exhaustive enumeration around 5 base configurations covering every registered appender and logger type and element shape: all single deviations (thorough: all pairs) - key respelled kebab/snake, ${prop} present/absent, attribute removed (default or error), ill-typed values incl. int32 overflow, alternative values, sub-tree inline as a name! expression - with expected error-ness and a reflection dump of the instantiated plugins compared with the base; totality: every key deleted / every value replaced by 14 hostile strings / every key mangled 10 ways -> nil or error, never a panic, and a valid configuration loads after Destroy; every registered type from its minimal configuration; the logger-kinds family under the scheduler.",
+    note="Trusted: the deviation table (expected defaults) in harness/enum/c15.go. Contradictory duplicates (same key under two spellings) are excluded. " + SCHED_NOTE,
+    technique="small-scope enumeration of configurations against expected outcomes + differential comparison", design="DESIGN.md section 3 C15", engine="enum+zzvrt"),
+ "C16": dict(
+    text="Explicit-state enumeration: ALL operation sequences of length <=5 (thorough 6) over 12 operations (Refresh valid sync / valid async / failing early / failing after validation / failing after binding, Destroy, log enabled/disabled, write via handle, register tag, obtain handle aux / ghost), each replayed on a reset package and followed by a fixed probe, compared step by step with a lifecycle model: no panic, guard behaviour, idempotent Destroy, sink of every item, Destroy+Refresh(valid) routes as configured.",
+    note="Trusted: the lifecycle model in harness/enum/c16.go. After a failed Refresh an item may reach the console or the failed configuration's sink (the statement is silent); async sinks are observed after the final Destroy.",
+    technique="explicit-state search over operation sequences against a reference lifecycle model", design="DESIGN.md section 3 C16", engine="enum"),
+ "C17": dict(
+    text="Bounded-exhaustive enumeration against a reference lexer + recursive-descent flattener transcribed from Expr.g4: every token sequence of <=6 (thorough 7) tokens over 14 lexemes in two spacings, every string of length <=4 (5) over a 26-symbol alphabet bare and inside T{k=...}, nesting/width ladders and 64 KiB inputs run in child processes with an address-space limit (a process crash is a violation).",
+    note="Trusted: the reference grammar in harness/enum/c17.go. Inputs are compared as rune sequences (invalid bytes read as U+FFFD). 64 KiB inputs only along one-parameter ladders.",
+    technique="small-scope input enumeration against a reference parser", design="DESIGN.md section 3 C17", engine="enum"),
+ "C18": dict(
+    text="Exhaustive: the tag predicate on every string of length <=7 (thorough 8) over a 10-symbol alphabet against the documented language; all segment compositions of total length 2..38 into 1..5 segments with leading/trailing/doubled underscores; every byte 0..255 at each position of 3 valid tags; RegisterTag on every string of length <=4 (5) twice with the registry compared with a set model; app/biz/rpc helpers on a 7-part alphabet.",
+    note="Trusted: the hand-written recogniser (cross-checked with a regular expression).", technique="exhaustive input enumeration against a reference recogniser + registry model", design="DESIGN.md section 3 C18", engine="enum"),
 }
 
 m = {
@@ -49,6 +96,8 @@ m = {
  "engines": [
   {"name": "zzvrt", "path": "vrt/", "serves_properties": ["C03","C04","C05","C06","C12","C13","C14","C19","C20"],
    "kind_free_text": "hand-written stateless model checker for Go: cooperative scheduler + preemption/deviation-bounded DFS over choice prefixes, shims for channels/select/sync/atomic/os/time, virtual clock and in-memory filesystem with fault and crash injection"},
+  {"name": "enum", "path": "harness/enum/", "serves_properties": ["C01","C02","C07","C08","C09","C10","C11","C12","C15","C16","C17","C18"],
+   "kind_free_text": "bounded-exhaustive enumeration harness: complete enumeration of configurations / inputs / operation sequences within stated bounds on the real package (plus in-package accessors by overlay), compared with reference models written in Go"},
   {"name": "instrument", "path": "cmd/instrument", "serves_properties": ["C03","C04","C05","C06","C12","C13","C14","C19","C20"],
    "kind_free_text": "go/types-directed source-to-source instrumenter; output substituted by go build -overlay"},
  ],
